@@ -83,7 +83,7 @@ func ruleA19(r *Run, p *Prog, rule string, root *ssa.Function, forbidField strin
 				bad, pos = why, in.Pos()
 			}
 			if c, ok := in.(*ssa.Call); ok && c.Call.IsInvoke() && forbidField != "" {
-				if fv, _ := loadedField(c.Call.Value); fv != nil && fv.Name() == forbidField && bad == "" {
+				if fv, _ := loadedField(c.Call.Value); fv != nil && fname(fv) == forbidField && bad == "" {
 					bad, pos = "calls the wrapped writer ("+forbidField+"."+c.Call.Method.Name()+")", c.Pos()
 				}
 			}
@@ -142,7 +142,7 @@ func ruleA20(r *Run, p *Prog, rule string) {
 func shortDescr(v ssa.Value) string {
 	s := descr(v)
 	if fv, _ := loadedField(v); fv != nil {
-		return fv.Name()
+		return fname(fv)
 	}
 	if cv, ok := v.(*ssa.Convert); ok {
 		if c, ok := cv.X.(*ssa.Call); ok && builtinName(&c.Call) == "len" {
@@ -222,7 +222,7 @@ func ruleA21(r *Run, p *Prog, rule string) {
 			kind = "cas-failed"
 		} else if hasCmp(cs, func(op token.Token, x, y ssa.Value) bool {
 			fv, _ := loadedField(x)
-			return fv != nil && fv.Name() == "seq" && op == token.GTR
+			return fv != nil && fname(fv) == "seq" && op == token.GTR
 		}) {
 			kind = "newer-bucket"
 		} else {
@@ -363,7 +363,7 @@ func ruleDrainBeforeExit(r *Run, p *Prog, rule, tname string) {
 			if c.Call.IsInvoke() && c.Call.Method.Name() == "TryNext" {
 				lastTry, tryCall = idx, c
 			}
-			if sc := staticCallee(&c.Call); sc != nil && sc.Name() == "isDone" {
+			if sc := staticCallee(&c.Call); sc != nil && canonFn(sc) == "isDone" {
 				lastDone, doneCall = idx, c
 			}
 		}
@@ -413,7 +413,7 @@ func ruleCloseOrder(r *Run, p *Prog, rule string) {
 	label := func(in ssa.Instruction) string {
 		switch x := in.(type) {
 		case *ssa.Call:
-			if fv, _ := loadedField(x.Call.Value); fv != nil && fv.Name() == "c" {
+			if fv, _ := loadedField(x.Call.Value); fv != nil && fname(fv) == "c" {
 				return "cancel"
 			}
 			if x.Call.IsInvoke() && x.Call.Method.Name() == "Close" {
@@ -421,7 +421,7 @@ func ruleCloseOrder(r *Run, p *Prog, rule string) {
 			}
 		case *ssa.UnOp:
 			if x.Op == token.ARROW {
-				if fv, _ := loadedField(x.X); fv != nil && fv.Name() == "done" {
+				if fv, _ := loadedField(x.X); fv != nil && fname(fv) == "done" {
 					return "wait-done"
 				}
 				return "recv-other"
